@@ -96,7 +96,10 @@ namespace {
       return *this;
     }
     virtual ~Tracked() {
-      g_reg->destroyed(id, canary);
+      // an instance that outlives its run (already reported there as a leak) is destroyed when nobody listens
+      if (g_reg) {
+        g_reg->destroyed(id, canary);
+      }
       canary = 0xdeadbeefu;
     }
     int value() const {
